@@ -170,7 +170,7 @@ class ModGen:
                 if o.slices and o.concats:
                     opts.append(("slice_cmp", 12))
             if o.bundles and any(True for b in self.buns):
-                opts.append(("bref", 10))
+                opts.append(("bref", 35 if o.adversarial_leaf_names else 10))
             if o.prefs and allow_ref and self.ref_targets(w, cur, inner=(depth > 0)):
                 opts.append(("pref", 14 if depth == 0 else 6))
         kind = d.weighted(opts)
@@ -348,7 +348,7 @@ class ModGen:
             # (with adversarial leaf names the top module gets no bundle ports: its flattened port names would be the
             #  elaborator's to choose, and the comparison keys top-level ports by name)
             if nb and o.bundle_ports and d.bool(o.bundle_port_pct) and not (is_top and o.adversarial_leaf_names):
-                bi = d.choice(nb)
+                bi = nb[-1] if (o.adversarial_leaf_names and d.bool(70)) else d.choice(nb)  # (the later definitions hold the sub-bundles)
                 for k in range(d.weighted([(1, 70), (2, 25), (3, 5)])):
                     if k and d.bool(40):
                         bi = d.choice(nb)  # further bundle ports are mostly of the same definition
@@ -356,9 +356,9 @@ class ModGen:
                     flipped = d.bool(30)
                     self.buns.append(["bp%d" % k, bi, True, flipped, role, d.choice(["ctor", "flipped"]) if flipped else "ctor"])
                     self.feats.add("bundle_port" if not k else "several_bundle_ports")
-            for k in range(d.int(0, 2)):
+            for k in range(d.int(1, 3) if o.adversarial_leaf_names else d.int(0, 2)):
                 if nb:
-                    bi = d.choice(nb)
+                    bi = nb[-1] if (o.adversarial_leaf_names and d.bool(70)) else d.choice(nb)
                     flipped = d.bool(25)
                     self.buns.append(["g%d" % len(self.buns), bi, False, flipped, None, "ctor"])
         # bundle instances alike in everything but their name are sometimes written as one multiplication: a, b = 2 * B(...)
@@ -667,18 +667,18 @@ def gen_bundles(d, o):
     if not o.bundles:
         return []
     out = []
-    for k in range(d.int(1 if o.bundle_port_pct > 50 else 0, 3)):
+    for k in range(d.int(2 if o.adversarial_leaf_names else 1 if o.bundle_port_pct > 50 else 0, 3)):
         roles = d.bool(30)
         kinds = SIG_KINDS + (["role_ab", "role_ba"] if roles else [])
         sigs = [[LEAF_NAMES[i], d.width(False), d.choice(kinds)] for i in range(d.int(1, 3))]
         subs = []
-        if out and d.bool(50):
+        if out and d.bool(85 if o.adversarial_leaf_names else 50):
             for i in range(d.int(1, 2)):
                 sidx = d.int(0, len(out) - 1)
                 flipped = d.bool(35)
                 role = d.choice([None, "A", "B"]) if out[sidx].get("roles") else None
                 subs.append([SUB_NAMES[i], sidx, flipped, d.choice(["ctor", "flipped"]) if flipped else "ctor", role])
-        if o.adversarial_leaf_names and subs and d.bool(50):
+        if o.adversarial_leaf_names and subs and d.bool(85):
             # a leaf whose name equals the flattened name of a member of one of the sub-bundles, e.g. `u_x`
             sub = d.choice(subs)
             inner = out[sub[1]]
